@@ -180,5 +180,10 @@ def run(ctx):
         pm.pm16_tree_to_fields(r, R) if R.ok else None
     finally:
         r.prop = saved
+    from . import c09, c15, renderer
+    c15.check_merge(r, lib)
+    Rn = renderer.Renderer(lib)
+    if Rn.ok:
+        c09.source_rules(r, Rn)
     r.trust("Vec::remove(i) removes the element at i; Iterator::position returns the index of the first match")
     r.assume("children are unique by name before each operation (induction over the operation sequence; base case: Element::new has no children)")
